@@ -51,8 +51,10 @@ def drain(conn, rng=None):
         b = conn.data_to_send(amt)
         if len(b) > amt:
             return None       # more than asked for: caller reports
-        if not b:
-            # nothing left? (an empty read with data pending would be a violation too)
+        if not b or rng.random() < 0.15:
+            # nothing left? (an empty read with data pending would be a violation too) - or simply an application
+            # that mixes bounded reads with "give me everything"
+            out += b
             rest = conn.data_to_send()
             out += rest
             break
@@ -165,9 +167,9 @@ def run_lazy(w, ep, rng):
         r = rng.random()
         if r < 0.45:
             continue
-        amt = rng.choice([1, 2, 5, 9, 10, 13, 17, 40, 100, 4096, 16384])
+        amt = rng.choice([1, 2, 5, 9, 10, 13, 17, 40, 100, 4096, 16384, None, None])
         b = conn.data_to_send(amt)
-        if len(b) > amt:
+        if amt is not None and len(b) > amt:
             bad_read = True
         out += b
     out += conn.data_to_send()
